@@ -479,7 +479,9 @@ func c08Replies(c *Ctx, k *core) {
 				c.undecided("reply-capacity", relName(m)+"#enable-arm", sel.Pos(), "cannot locate the control arm")
 				continue
 			}
-			leaves := func(j ssa.Instruction) bool { return !(entry == j.Block() || entry.Dominates(j.Block())) || isReturn(j) }
+			leaves := func(j ssa.Instruction) bool {
+				return !(entry == j.Block() || entry.Dominates(j.Block())) || isReturn(j)
+			}
 			hit := reachAvoidFromBlock(entry, leaves, isAnswer)
 			twice := false
 			for _, j := range allInstrs(m) {
